@@ -253,7 +253,13 @@ func runCheck(id, tier string, args []string) (code int) {
 			base++
 		}
 	}
-	if base < prop.MinObligations {
+	anyFail := false
+	for _, ob := range all {
+		anyFail = anyFail || !ob.OK
+	}
+	if base < prop.MinObligations && !anyFail {
+		// too few instances and nothing reported: a rule lost its subject.  (With a failed obligation the run goes
+		// on: a rule that gave up on a changed construct has named it, and that report is the verdict.)
 		return undecidedExit(fmt.Sprintf("only %d obligations generated, %d confirmed by reading: a rule matches fewer instances than it should", base, prop.MinObligations))
 	}
 	known := loadKnown()
@@ -459,7 +465,7 @@ func runMulti(args []string) int {
 				failed = append(failed, ob)
 			}
 		}
-		if len(c.Obls) < prop.MinObligations {
+		if len(c.Obls) < prop.MinObligations && len(failed) == 0 {
 			fmt.Printf("== %s exit=2 UNDECIDED only %d obligations (< %d)\n", id, len(c.Obls), prop.MinObligations)
 			rc = 2
 			continue
